@@ -102,6 +102,7 @@ def h(x):
     "consts": '''
 A = (1, 2.5, -0.0, 1e400, 3+4j, "s", b"b", None, True, Ellipsis, (1, (2, (3,))))
 B = 2**31, 2**31 - 1, -2**31, 2**63, -2**63 - 1, 2**100, 10**30, 0xFFFFFFFF, 1 << 15, (1 << 15) - 1
+C = -2**31 - 1, -2**40, -(2**62), 2**40, -4294967296, 0.1 + 0.2, 1.0 / 3, 1.7976931348623157e308, 5e-324
 def f(x):
     if x in {1, 2, 3}:
         return "in-set"
@@ -175,6 +176,29 @@ def f(a, (b, c)):
     exec "x=1"
     return `a`, 10L, 0777, ur"x"
 ''',
+    "same_shape": '''
+class P:
+    def get_x(self):
+        return self._x
+
+    def get_y(self):
+        return self._y
+
+
+    def get_z(self):
+        return self._z
+f1 = lambda a: a + 1
+f2 = lambda a: a + 1
+
+f3 = lambda a: a + 1
+def outer():
+    def get_a():
+        return a
+    def get_b():
+        return b
+    a = b = 1
+    return get_a, get_b
+''',
     "big_tables": None,
     "exc_star": '''
 def f():
@@ -193,6 +217,15 @@ def big_tables(n=262):
     for i in range(n):
         lines.append("    v%d = %d" % (i, 1000 + i))
     lines.append("    return " + " + ".join("v%d" % i for i in range(0, n, 7)) + " + " + " + ".join("g%d" % i for i in range(n)))
+    return "\n".join(lines) + "\n"
+
+
+def big_bytes_tuple(n=300):
+    """a constant tuple of more than 255 items mixing bytes and text, and a code object with more than 255 constants"""
+    items = ", ".join(("b'k%d'" % i) if i % 2 == 0 else ("'t%d'" % i) for i in range(n))
+    lines = ["T = (%s)" % items, "def f():"]
+    for i in range(n):
+        lines.append("    g(%s)" % (("b'c%d'" % i) if i % 3 == 0 else ("'d%d'" % i)))
     return "\n".join(lines) + "\n"
 
 
@@ -219,6 +252,7 @@ def corpus():
             out[k] = v.lstrip("\n")
     out["big_tables"] = big_tables()
     out["manylines"] = manylines()
+    out["big_bytes_tuple"] = big_bytes_tuple()
     out["long_jumps"] = long_jump_body()
     return out
 
